@@ -335,6 +335,9 @@ pub struct RunLog {
     pub events: Vec<Event>,
     pub steps: Vec<StepRec>,
     pub died: Option<String>,
+    /// replaying the prefix met a different set of possible answers than when the prefix was recorded: the
+    /// subject did not behave deterministically under the same environment answers
+    pub diverged: Option<String>,
 }
 
 fn options(g: &EnvInner, single: bool) -> Vec<(usize, Answer, String)> {
@@ -386,6 +389,7 @@ pub fn run_system(scripts: &[Script], schedule: &[usize], horizon: usize) -> Run
     });
     let mut steps = Vec::new();
     let mut died = None;
+    let mut diverged: Option<String> = None;
     for k in 0..horizon {
         // quiescence: every actor is blocked in recv_from
         let mut g = e.m.lock().unwrap();
@@ -403,7 +407,10 @@ pub fn run_system(scripts: &[Script], schedule: &[usize], horizon: usize) -> Run
         }
         let opts = options(&g, n == 1);
         let chosen = if k < schedule.len() { schedule[k] } else { 0 };
-        assert!(chosen < opts.len(), "schedule diverged");
+        if chosen >= opts.len() {
+            diverged = Some(format!("answer {k} of the prefix {:?} was option {chosen}, but only {} answers are possible now", schedule, opts.len()));
+            break;
+        }
         let (a, ans, desc) = opts[chosen].clone();
         if let Answer::Datagram(SocketAddr::V4(from), bytes) | Answer::LateDatagram(SocketAddr::V4(from), bytes) = &ans {
             if n > 1 && g.socks[a].inbox.front() == Some(&(*from, bytes.clone())) {
@@ -434,7 +441,7 @@ pub fn run_system(scripts: &[Script], schedule: &[usize], horizon: usize) -> Run
     }
     let mut g = e.m.lock().unwrap();
     g.active = false;
-    RunLog { events: std::mem::take(&mut g.events), steps, died }
+    RunLog { events: std::mem::take(&mut g.events), steps, died, diverged }
 }
 
 // ---- the oracle: a sequential reference of the Actor contract ---------------------------------------
@@ -570,6 +577,15 @@ impl<'a> Xp<'a> {
         let log = run_system(self.scripts, &prefix, self.horizon);
         end_case(self.shared);
         self.runs += 1;
+        if let Some(d) = &log.diverged {
+            // not a verdict about C17 and not a reason to stop: this prefix is abandoned, the rest is explored
+            let mut r = self.shared.lock().unwrap();
+            r.count("replays_diverged", 1);
+            if !r.notes.iter().any(|n| n.starts_with("replay diverged")) {
+                r.notes.push(format!("replay diverged ({}): {d}", self.name));
+            }
+            return;
+        }
         let vs = check_log(self.scripts, &log);
         let died = log.died.is_some();
         {
@@ -642,6 +658,12 @@ pub fn run_c17(a: &Args, shared: &SharedReport) {
         r.count("distinct_handler_call_sequences", (o1 + y.outcomes.len()) as u64);
     }
     id_sweep(a, shared, th);
+    let mut r = shared.lock().unwrap();
+    let div = r.counters.get("replays_diverged").copied().unwrap_or(0);
+    if div > 0 {
+        r.exhaustive = false;
+        r.violation("machinery:e6-replay-diverged", format!("{div} prefixes could not be replayed: the event loop did not react deterministically to the same environment answers (those prefixes were abandoned)"), json!({"engine": "e6"}));
+    }
 }
 
 fn id_sweep(a: &Args, shared: &SharedReport, th: bool) {
